@@ -44,6 +44,7 @@ def is_loader(name: str) -> bool:
 
 
 def run(repo: Repo, rep, tier: str):
+    rep.count("files_in_scope", repo.consult_all())
     shadow_census(repo, rep, "C06")
     sampler_replay_guard(repo, rep, "C06")
 
